@@ -251,16 +251,14 @@ theorem hitG_filterMap {α : Type} (d : α → Option ℚ) (ev : List ℚ → Bo
 
 /-! ### the audit with per-assertion card filters -/
 
-/-- as `AuditLoop.testOn`, the data of an assertion being those of the drawn cards it uses -/
-def testOnOpt {α : Type} (data : String → String → α → Option ℚ) (T : String → String → SeqTest)
-    (h : List α) : Status.Test :=
-  fun cid name => match T cid name (h.filterMap (data cid name)) with
-    | .ok r => r
-    | .error _ => (XR.nan, [])
+-- `testOnOpt`, `auditCompleteOpt`: Model/AuditLoop.lean
 
-def auditCompleteOpt {α : Type} (data : String → String → α → Option ℚ) (T : String → String → SeqTest)
-    (s : State) (h : List α) : Bool :=
-  summarizeStatus (setPValues (testOnOpt data T h) s).2
+/-- when every card is used, the style-based loop is the plain one -/
+theorem auditCompleteOpt_some {α : Type} (data : String → String → α → ℚ) (T : String → String → SeqTest)
+    (s : State) (h : List α) :
+    auditCompleteOpt (fun c n x => some (data c n x)) T s h = auditComplete data T s h := by
+  unfold auditCompleteOpt auditComplete testOnOpt testOn
+  simp [List.filterMap_eq_map']
 
 /-- **Risk limit of the audit, style-based.**  As `audit_risk_limit`, each assertion using only the drawn
 cards for which its `data` is `some _` (the cards listing its contest): if the test of one assertion of one
